@@ -334,6 +334,14 @@ def build_pipe(r, tier):
         v = r.choice(gen.BY_TAG[t])(r)
         if pipe_safe(v):
             verbs.append(v)
+    if r.chance(0.2):
+        # each put/filter has its own functions and variables: the same names in two stages are different things
+        same = [["put", x] for x in ["func f(a) { return a * 10 } $y1 = apply([$i], f)[1]", "func f(a) { return a + 1 } $y2 = apply([$i], f)[1]",
+                                     "func f(a, b) { return b <=> a } $y5 = joinv(sort([$i, 3, 40], f), \";\")", "func f(a, b) { return a <=> b } $y6 = joinv(sort([$i, 3, 40], f), \";\")",
+                                     "func f(acc, e) { return acc + e } $y7 = fold([$i, 1, 2], f, 0)", "func f(acc, e) { return acc . e } $y8 = fold([$i, 1, 2], f, \"\")",
+                                     "func g(a) { return a * 2 } func f(a) { return g(a) + 1 } $y9 = f($i)", "func g(a) { return a * 3 } func f(a) { return g(a) - 1 } $y0 = f($i)",
+                                     "func f(k, v) { return {toupper(k): v} } $y4 = joink(apply({\"q\": $i}, f), \",\")", "func f(k, v) { return {k . k: v} } $y3 = joink(apply({\"q\": $i}, f), \",\")"]]
+        verbs = r.sample(same, r.choice([2, 2, 3]))
     recs = gen.gen_records(r, r.choice([0, 1, 3, 8, 25, 70]), sparse=r.chance(0.3))
     text = gen.to_json(recs)
     return {"kind": "pipe", "verbs": verbs, "text": text, "cseed": r.randint(1, 1 << 40), "nconf": 2 if tier == "quick" else 4}
